@@ -800,6 +800,14 @@ def correspond(ctx):
   for k, v in sorted(stats.items()):
     ctx.bump('gen:' + k, v)
   ctx._c08_uncovered = uncovered_seen
+  # the regenerated build_schema, col_to_dict and ModifyColumn against the running functions (translator validation)
+  c2d, mods = translator_cases(ctx)
+  for name, chk, cs in (('gen_build', 'build_gen_check', bcases), ('gen_c2d', 'c2d_check', c2d), ('gen_mod', 'mod_check', mods)):
+    badg = ctx.run_cases(name, IMPORTS, chk, cs, shard=400, extra_defs=TRANSLATOR_DEFS)
+    for i in badg[:3]:
+      ctx.broken('correspondence:regenerated %s differs from the running function' % chk, cs[i][:1500])
+  ctx.extra['translator_differential_cases'] = {'build_schema_gen': len(bcases), 'col_to_dict_gen': len(c2d),
+                                                'modify_column_gen': len(mods)}
   bad = ctx.run_cases('build', IMPORTS, 'build_check', bcases, shard=400)
   for i in bad[:5]:
     ctx.broken('correspondence:model build_schema differs from schema.build_schema', 'metadata rows %r' % (binfo[i],))
@@ -980,3 +988,397 @@ def minimise(ctx, w):
     except Exception:
       pass
   return w
+
+
+# ------------------------------------------------------------------------------------------------
+# regeneration of the deciding code from /repo (harness/sm2v.py), bridged in Proofs/SchemaSync_bridge.v
+
+RECORD_DICT = {'keys': {'type': 'd_type', 'isFormula': 'd_isf', 'formula': 'd_formula', 'reverseColId': 'd_rev', 'id': 'd_id'},
+               'order': ['type', 'isFormula', 'formula', 'reverseColId', 'id'],
+               'wrap': {'type': 'Some {0}', 'isFormula': 'Some {0}', 'formula': 'Some {0}', 'reverseColId': 'Some {0}',
+                        'id': 'Some {0}'}}
+COL_ATTRS = {'type': 'ci_type (snd {0})', 'isFormula': 'ci_isf (snd {0})', 'formula': 'ci_formula (snd {0})',
+             'reverseColId': 'ci_rev (snd {0})', 'colId': 'fst {0}'}
+
+COL_TO_DICT_BINDING = {
+  'names': {'col': 'col', 'include_id': 'include_id', 'include_default': 'include_default'},
+  'attrs': COL_ATTRS, 'record_dict': RECORD_DICT, 'truthy': {'col.reverseColId': 'truthy_ostr {0}'},
+  'setitem': {'ret': ('ret', {'reverseColId': 'set_d_rev {0} {1}', 'id': 'set_d_id {0} {1}'})}}
+
+MODIFY_BINDING = {
+  'names': {'col_id': 'col_id', 'col_info': 'col_info', 'cols': 'cols'},
+  'attrs': COL_ATTRS, 'record_dict': RECORD_DICT,
+  'index': {'schema_table_info.columns': 'scol_at {0} cols'},
+  'dict_get': {'col_info': {'type': 'match p_type col_info with Some x => x | None => {0} end',
+                            'isFormula': 'match p_isf col_info with Some x => x | None => {0} end',
+                            'formula': 'match p_formula col_info with Some x => x | None => {0} end',
+                            'reverseColId': 'match p_rev col_info with Some x => x | None => {0} end'}},
+  'dict_has': {'col_info': {'type': 'is_some (p_type col_info)', 'isFormula': 'is_some (p_isf col_info)',
+                            'formula': 'is_some (p_formula col_info)', 'reverseColId': 'is_some (p_rev col_info)'},
+               'old_col_info': {'type': 'is_some (d_type old_col_info)', 'isFormula': 'is_some (d_isf old_col_info)',
+                                'formula': 'is_some (d_formula old_col_info)',
+                                'reverseColId': 'is_some (d_rev old_col_info)', 'id': 'is_some (d_id old_col_info)'}},
+  'calls': {'schema.SchemaColumn': '({0}, {{| ci_type := {1}; ci_isf := {2}; ci_formula := {3}; ci_rev := {4} |}})',
+            'bool': '{0}',
+            'schema.col_to_dict(include_id=False,include_default=True)': 'col_to_dict_gen {0} false true',
+            'schema.col_to_dict(include_id=False)': 'col_to_dict_gen {0} false false'},
+  'compare': {'eq:new:old': 'scol_eqb {0} {1}'},
+  'mutators': {'schema_table_info.columns.pop': ('cols', 'od_del {0} {1}')},
+  'setitem': {'schema_table_info.columns': ('cols', 'od_set {0} (snd {1}) {2}')},
+  'noop': {'self._engine.rebuild_usercode', 'log.info'},
+  'on_return': 'None', 'final': 'Some {0}'}
+
+# statements of docactions.ModifyColumn that are not translated here (the table assertion, the column objects: C23)
+MODIFY_PINNED = ['table = self._engine.tables[table_id]',
+                 "assert table.has_column(col_id), 'Column %s not in table %s' % (col_id, table_id)",
+                 'old_column = table.get_column(col_id)', 'schema_table_info = self._engine.schema[table_id]',
+                 'new_column = table.get_column(col_id)',
+                 'self._engine.out_actions.undo.append(actions.ModifyColumn(table_id, col_id, undo_col_info))']
+
+
+def gen_col_to_dict(sm2v, os):
+  fn = sm2v.find_function(os.path.join(core.GRIST, 'schema.py'), 'col_to_dict')
+  body = sm2v.strip_doc(fn.body)
+  if [a.arg for a in fn.args.args] != ['col', 'include_id', 'include_default'] or \
+     [sm2v.U(d) for d in fn.args.defaults] != ['True', 'False']:
+    raise core.TieBroken('schema.col_to_dict: signature changed')
+  if not (isinstance(body[-1], sm2v.ast.Return) and sm2v.U(body[-1].value) == 'ret'):
+    raise core.TieBroken('schema.col_to_dict: does not end in `return ret`')
+  t = sm2v.Tr(COL_TO_DICT_BINDING)
+  return ('Definition col_to_dict_gen (col : scol) (include_id include_default : bool) : cdict :=\n%s.\n'
+          % t.block(body[:-1], ['ret']))
+
+
+def gen_modify_column(sm2v, os):
+  fn = sm2v.find_function(os.path.join(core.GRIST, 'docactions.py'), 'DocActions.ModifyColumn')
+  body = sm2v.strip_doc(fn.body)
+  texts = [sm2v.U(s) for s in body]
+  rest = []
+  for s, tx in zip(body, texts):
+    if tx in MODIFY_PINNED:
+      continue
+    if isinstance(s, sm2v.ast.For):
+      continue                       # the fill loop: translated for C23
+    rest.append(s)
+  if sorted(tx for tx in texts if tx in MODIFY_PINNED) != sorted(MODIFY_PINNED):
+    raise core.TieBroken('docactions.ModifyColumn: a statement the model relies on is gone or changed: %r'
+                         % sorted(set(MODIFY_PINNED) - set(texts)))
+  if not texts[texts.index(MODIFY_PINNED[3]) + 1].startswith('old = schema_table_info.columns[col_id]'):
+    raise core.TieBroken('docactions.ModifyColumn: `old` is not read right after schema_table_info')
+  t = sm2v.Tr(MODIFY_BINDING)
+  return ('Definition modify_column_gen (cols : scols) (col_id : str) (col_info : colpatch) : option (scols * cdict) :=\n%s.\n'
+          % t.block(rest, ['cols', 'undo_col_info'], top=True))
+
+
+CREC_ATTRS = {'id': 'c_id {0}', 'parentId': 'c_parent {0}', 'parentPos': 'c_pos {0}', 'colId': 'c_colId {0}',
+              'type': 'c_type {0}', 'isFormula': 'c_isf {0}', 'formula': 'c_formula {0}', 'tableId': 't_tableId {0}'}
+
+REVLOOKUP_BINDING = {'names': {'collist': 'collist'}, 'attrs': CREC_ATTRS, 'zdicts': {'col_ref_to_col_id'},
+                     'exprs': {"getattr(c, 'reverseCol', 0)": '(c_rev c)'}}
+
+BUILD_BINDING = {
+  'names': {'meta_columns': 'cols', 'meta_tables': 'tables', 'schema': 'schema'},
+  'attrs': CREC_ATTRS,
+  'exprs': {'t.id': '(t_id t)', 'SchemaTable(t.tableId, columns)': 'columns'},
+  'calls': {'actions.transpose_bulk_action': '{0}', 'get_reverse_col_id_lookup_func': 'reverse_col_id_gen {0}',
+            'reverse_col_id': 'reverse_col_id {0}', 'bool': '{0}',
+            'SchemaColumn': '({0}, {{| ci_type := {1}; ci_isf := {2}; ci_formula := {3}; ci_rev := {4} |}})'},
+  'od_value': 'snd {0}',
+  # coldict[t.id] raises KeyError for a table without column records: the generated function first checks that every
+  # table has its group, then reads with the empty default
+  'index': {'coldict': 'match zdict_get {0} coldict with Some g => g | None => [] end'},
+  'setitem': {'schema': ('schema', 'od_set {0} {1} {2}')}}
+
+
+def gen_build_schema(sm2v, os):
+  path = os.path.join(core.GRIST, 'schema.py')
+  fn = sm2v.find_function(path, 'get_reverse_col_id_lookup_func')
+  body = sm2v.strip_doc(fn.body)
+  if len(body) != 2 or not isinstance(body[1], sm2v.ast.Return) or [a.arg for a in fn.args.args] != ['collist']:
+    raise core.TieBroken('schema.get_reverse_col_id_lookup_func: shape changed')
+  t = sm2v.Tr(REVLOOKUP_BINDING)
+  pre = t.block(body[:1], ['col_ref_to_col_id'])
+  pre = pre[:pre.rindex('col_ref_to_col_id')]          # drop the final tuple: the lambda is the result
+  rev = 'Definition reverse_col_id_gen (collist : list crec) : crec -> option str :=\n%s%s.\n' % (pre, t.expr(body[1].value))
+  fn = sm2v.find_function(path, 'build_schema')
+  if [a.arg for a in fn.args.args] != ['meta_tables', 'meta_columns', 'include_builtin']:
+    raise core.TieBroken('schema.build_schema: signature changed')
+  before, rng, after = sm2v.split_range(fn, 'collist = sorted(', 'for t in actions.transpose_bulk_action(meta_tables)')
+  if hashlib_sha(sm2v.pin(before)) != PINS['build_schema:before'] or [sm2v.U(s) for s in after] != ['return schema']:
+    raise core.TieBroken('schema.build_schema: the statements before the sort (assertions, built-in tables) or the '
+                         'return are not the ones the model was written from')
+  t = sm2v.Tr(BUILD_BINDING)
+  t.locals = set()
+  head = t.block(rng[:-1], ['coldict'])
+  head = head[:head.rindex('coldict')]
+  loop = t.block(rng[-1:], ['schema'])
+  return rev + ('Definition build_schema_gen (schema : SchemaSync.schema) (tables : list trec) (cols : list crec) '
+                ': res SchemaSync.schema :=\n%sif forallb (fun t => is_some (zdict_get (t_id t) coldict)) tables then Ok (\n%s)\n'
+                'else Err E_key_error.\n' % (head, loop))
+
+
+def hashlib_sha(text):
+  import hashlib
+  return hashlib.sha1(text.encode()).hexdigest()
+
+
+# sha1 of canonical ASTs, computed by `python -m harness.props.c08` on the tree the model was written from (d061d08)
+PINS = {
+ "build_schema:before": "fb7c0c393ebb8a755d0c96de4c1c2fd743d24572",
+ "docactions.AddColumn": "7f6fb6340d4a1fdb9c0b17516c0e0e1740471285",
+ "docactions.AddTable": "9434dc97a7cb97b0e526e9e1e665313e76f6fbe7",
+ "docactions.RemoveColumn": "80bdcd22c58c38e7966dc01c1d9e08625be97fbf",
+ "docactions.RemoveTable": "c3da67bfa97c987b0737eb137c6c4a4ac76e16b9",
+ "docactions.RenameColumn": "03d4c8088fc4baae47e9a0022a9f0d11da42e669",
+ "docactions.RenameTable": "34d28f3d06fa05851ecf245a5e8485117f274ddd",
+ "glue:Engine.apply_doc_action": "9f2ed7104f0b77342e33d87a3d766a9b33a6723b",
+ "glue:Engine.assert_schema_consistent": "2dc35f99593bf234a92f9b570e2474307663f817",
+ "glue:UserActions._removeTableRecords": "fa8034179d8b77c3d4bb8861b5227c87a9aa31de",
+ "glue:UserActions._updateColumnRecords": "07949eec30309a1a48e1bca85b318a2b1d7c26cc",
+ "glue:UserActions._updateTableRecords": "6ba1e7398ab89f55919c8e589aa57e7153bef1f0",
+ "glue:UserActions.doAddColumn": "945c0b19b8139a1bc910518f45024bc60aa5780e",
+ "glue:UserActions.doAddTable": "bcfa6627eca2bc2c1287da5d20eec9b8b6b90e43",
+ "glue:UserActions.doBulkUpdateFromPairs": "4c181efdac120b0f755c8630dc361a5b0c664b63",
+ "glue:UserActions.doRemoveColumns": "3850942e572ba6c2a2429f9e393d67d5f70ebe33",
+ "glue:clone_schema": "3c75ae4a380b345d9d0ee9bcf6c9e4881a919ddf",
+ "glue:dict_list_to_cols": "0581d6d0c960fde68986c13d631efa0f69888819",
+ "glue:dict_to_col": "3c0c26cb367945f012b7237f88feca8787bc67e2"
+}
+
+
+SCHEMA_AT = 'match od_get table_id sch with Some cs => cs | None => [] end'
+DOCACTION_SPECS = [
+  # (method, prefixes of the schema statements, signature of the generated definition, binding, outs)
+  ('AddColumn', ['self._engine.schema[table_id].columns[col_id] ='],
+   'add_column_gen (sch : schema) (table_id col_id : str) (col_info : colinfo) : schema',
+   {'names': {'sch': 'sch', 'col_id': 'col_id', 'col_info': 'col_info'},
+    'calls': {'schema.dict_to_col(col_id=col_id)': '{0}'},
+    'setitem': {'self._engine.schema[table_id].columns': ('sch', 'od_set table_id (od_set {0} {1} (%s)) {2}' % SCHEMA_AT)}},
+   ['sch']),
+  ('RemoveColumn', ['colinfo = self._engine.schema[table_id].columns.pop(col_id)'],
+   'remove_column_gen (sch : schema) (table_id col_id : str) : schema',
+   {'names': {'sch': 'sch', 'col_id': 'col_id'},
+    'assign_mutators': {'self._engine.schema[table_id].columns.pop':
+                        ('sch', 'od_get {0} (%s)' % SCHEMA_AT, 'od_set table_id (od_del {0} (%s)) {1}' % SCHEMA_AT)}},
+   ['sch']),
+  ('RenameColumn', ['schema_table_info = self._engine.schema[table_id]', 'colinfo = schema_table_info.columns.pop(',
+                    'schema_table_info.columns[new_col_id] ='],
+   'rename_column_gen (sch : schema) (table_id old_col_id new_col_id : str) (dflt : colinfo) : scols',
+   {'names': {'sch': 'sch', 'old_col_id': 'old_col_id', 'new_col_id': 'new_col_id'},
+    'exprs': {'self._engine.schema[table_id]': '(%s)' % SCHEMA_AT,
+              'colinfo._replace(colId=new_col_id)': 'colinfo'},
+    'assign_mutators': {'schema_table_info.columns.pop':
+                        ('schema_table_info', 'match od_get {0} {1} with Some i => i | None => dflt end', 'od_del {0} {1}')},
+    'setitem': {'schema_table_info.columns': ('schema_table_info', 'od_set {0} {1} {2}')}},
+   ['schema_table_info']),
+  ('AddTable', ['self._engine.schema[table_id] ='],
+   'add_table_gen (sch : schema) (table_id : str) (columns : list (str * colinfo)) : schema',
+   {'names': {'sch': 'sch', 'table_id': 'table_id', 'columns': 'columns'},
+    'exprs': {'schema.SchemaTable(table_id, schema.dict_list_to_cols(columns))': '(od_of_list columns)'},
+    'setitem': {'self._engine.schema': ('sch', 'od_set {0} {1} {2}')}},
+   ['sch']),
+  ('RemoveTable', ['schema_table = self._engine.schema.pop(table_id)'],
+   'remove_table_gen (sch : schema) (table_id : str) : schema',
+   {'names': {'sch': 'sch', 'table_id': 'table_id'},
+    'assign_mutators': {'self._engine.schema.pop': ('sch', 'od_get {0} {1}', 'od_del {0} {1}')}},
+   ['sch']),
+  ('RenameTable', ['old = self._engine.schema.pop(old_table_id)', 'self._engine.schema[new_table_id] ='],
+   'rename_table_gen (sch : schema) (old_table_id new_table_id : str) : schema',
+   {'names': {'sch': 'sch', 'old_table_id': 'old_table_id', 'new_table_id': 'new_table_id'},
+    'exprs': {'schema.SchemaTable(new_table_id, old.columns)': 'old'},
+    'assign_mutators': {'self._engine.schema.pop':
+                        ('sch', 'match od_get {0} {1} with Some cs => cs | None => [] end', 'od_del {0} {1}')},
+    'setitem': {'self._engine.schema': ('sch', 'od_set {0} {1} {2}')}},
+   ['sch']),
+]
+
+
+def gen_docactions(sm2v, os, pins=None):
+  """The schema statements of the six other schema doc actions; everything else in those methods is pinned."""
+  out = []
+  path = os.path.join(core.GRIST, 'docactions.py')
+  for name, prefixes, sig, binding, outs in DOCACTION_SPECS:
+    fn = sm2v.find_function(path, 'DocActions.' + name)
+    body = sm2v.strip_doc(fn.body)
+    chosen, others = [], []
+    for s in body:
+      tx = sm2v.U(s)
+      (chosen if any(tx.startswith(p) for p in prefixes) else others).append(s)
+    if len(chosen) != len(prefixes):
+      raise core.TieBroken('docactions.%s: cannot locate the schema statements %r' % (name, prefixes))
+    key = 'docactions.' + name
+    h = hashlib_sha(sm2v.pin(others))
+    if pins is not None:
+      pins[key] = h
+    elif PINS.get(key) != h:
+      raise core.TieBroken('docactions.%s: a statement outside the translated schema update changed (assertions, undo '
+                           'action, order)' % name)
+    t = sm2v.Tr(binding)
+    out.append('Definition %s :=\n%s.\n' % (sig, t.block(chosen, outs)))
+  return '\n'.join(out)
+
+
+# whole functions that are glue for the model (not translated): their canonical AST is compared with the one the model
+# was written from
+GLUE = [('schema.py', 'dict_to_col'), ('schema.py', 'dict_list_to_cols'), ('schema.py', 'clone_schema'),
+        ('engine.py', 'Engine.assert_schema_consistent'), ('engine.py', 'Engine.apply_doc_action'),
+        ('useractions.py', 'UserActions._updateColumnRecords'), ('useractions.py', 'UserActions._updateTableRecords'),
+        ('useractions.py', 'UserActions.doAddColumn'), ('useractions.py', 'UserActions.doAddTable'),
+        ('useractions.py', 'UserActions.doRemoveColumns'), ('useractions.py', 'UserActions._removeTableRecords'),
+        ('useractions.py', 'UserActions.doBulkUpdateFromPairs')]
+
+
+def glue_pins(sm2v, os):
+  out = {}
+  for f, q in GLUE:
+    fn = sm2v.find_function(os.path.join(core.GRIST, f), q)
+    out['glue:' + q] = hashlib_sha(sm2v.pin(sm2v.strip_doc(fn.body)) + '|' + sm2v.ast.dump(fn.args, annotate_fields=False))
+  return out
+
+
+GEN_HEADER = '''(* GENERATED by harness/props/c08.py (harness/sm2v.py) from sandbox/grist/schema.py (col_to_dict, build_schema,
+   get_reverse_col_id_lookup_func) and docactions.py (the schema updates of the seven schema doc actions).  Do not edit. *)
+From Coq Require Import ZArith List Bool.
+Import ListNotations.
+Require Import Grist.Model.SchemaSync Grist.Model.SchemaCode.
+Open Scope Z_scope.
+
+'''
+
+
+def regenerate(ctx):
+  import os
+  from harness import sm2v
+  path = os.path.join(core.COQ, 'gen', 'SchemaSync_gen.v')
+  try:
+    parts = [gen_col_to_dict(sm2v, os), gen_modify_column(sm2v, os), gen_docactions(sm2v, os), gen_build_schema(sm2v, os)]
+    for k, h in glue_pins(sm2v, os).items():
+      if PINS.get(k) != h:
+        raise core.TieBroken('%s is not the text the model was written from (untranslated glue; AST comparison)' % k[5:])
+  except (sm2v.Untranslatable, core.TieBroken) as e:
+    core.write_if_changed(path, '(* translation failed: %s *)\n' % str(e).replace('*', ' '))
+    raise core.TieBroken('schema code outside the translated subset / changed glue: %s' % e)
+  core.write_if_changed(path, GEN_HEADER + '\n'.join(parts))
+
+
+if __name__ == '__main__':
+  import json
+  import os
+  from harness import sm2v
+  core.setup_impl_path()
+  pins = {}
+  gen_docactions(sm2v, os, pins)
+  fn = sm2v.find_function(os.path.join(core.GRIST, 'schema.py'), 'build_schema')
+  b, r, a = sm2v.split_range(fn, 'collist = sorted(', 'for t in actions.transpose_bulk_action(meta_tables)')
+  pins['build_schema:before'] = hashlib_sha(sm2v.pin(b))
+  pins.update(glue_pins(sm2v, os))
+  print('PINS = ' + json.dumps(pins, indent=1, sort_keys=True))
+
+
+# ------------------------------------------------------------------------------------------------
+# differential validation of the translator: the generated definitions evaluated by vm_compute vs the running functions
+
+def cdict_lit(d):
+  f = lambda k, lit: opt(d[k], lit) if k in d else 'None'
+  rev = '(Some %s)' % ostr(d['reverseColId']) if 'reverseColId' in d else 'None'
+  return '{| d_type := %s; d_isf := %s; d_formula := %s; d_rev := %s; d_id := %s |}' % (
+    f('type', S), f('isFormula', lambda b: B(bool(b))), f('formula', S), rev, f('id', S))
+
+
+class _FakeColumn(object):
+  def set(self, r, v): pass
+  def raw_get(self, r): return None
+
+
+class _FakeTable(object):
+  row_ids = []
+  def __init__(self, sch): self.sch = sch
+  def has_column(self, c): return c in self.sch.columns
+  def get_column(self, c): return _FakeColumn()
+
+
+class _FakeEngine(object):
+  def __init__(self, sch):
+    import action_obj
+    self.schema = sch
+    self.tables = {t: _FakeTable(st) for t, st in sch.items()}
+    self.out_actions = action_obj.ActionGroup()
+  def rebuild_usercode(self): pass
+
+
+def translator_cases(ctx):
+  """(coq check name, cases) for col_to_dict_gen and modify_column_gen against the running functions."""
+  import collections as C
+  import docactions
+  import schema as schema_mod
+  rng = ctx.rng
+  types = ['Text', 'Int', 'Ref:T', 'RefList:T', 'Any']
+  def rcol(cid):
+    return schema_mod.SchemaColumn(cid, rng.choice(types), rng.random() < 0.4, rng.choice(['', '$A', '1+1']),
+                                   rng.choice([None, None, '', 'B', 'back']))
+  plain = lambda c: (c.type, bool(c.isFormula), c.formula, c.reverseColId)
+  c2d, mods = [], []
+  for _ in range(ctx.n(60, 600)):
+    col = rcol(rng.choice(['A', 'B', 'x y']))
+    inc_id, inc_def = rng.random() < 0.5, rng.random() < 0.5
+    d = schema_mod.col_to_dict(col, include_id=inc_id, include_default=inc_def)
+    c2d.append('((%s, %s), %s, %s, %s)' % (S(col.colId), colinfo_lit(plain(col)), B(inc_id), B(inc_def), cdict_lit(d)))
+  for _ in range(ctx.n(80, 800)):
+    ids = rng.sample(['A', 'B', 'C', 'D'], rng.randint(1, 4))
+    cols = C.OrderedDict((i, rcol(i)) for i in ids)
+    sch = C.OrderedDict([('T', schema_mod.SchemaTable('T', cols))])
+    eng = _FakeEngine(sch)
+    cid = rng.choice(ids)
+    old = cols[cid]
+    info = {}
+    for k, vals in (('type', types), ('isFormula', [True, False, 1, 0]), ('formula', ['', '$A', '2']),
+                    ('reverseColId', [None, '', 'B', 'back', 'other'])):
+      r = rng.random()
+      if r < 0.3:
+        info[k] = rng.choice(vals)
+      elif r < 0.45:
+        info[k] = getattr(old, k)          # same value: the no-op path
+    before = [(k, plain(c)) for k, c in cols.items()]
+    docactions.DocActions(eng).ModifyColumn('T', cid, dict(info))
+    after = [(k, plain(c)) for k, c in sch['T'].columns.items()]
+    undo = eng.out_actions.undo
+    if undo:
+      exp = '(Some (%s, %s))' % (cols_lit(after), cdict_lit(undo[0].col_info))
+    else:
+      exp = 'None'
+      if after != before:
+        raise core.TieBroken('ModifyColumn changed the schema without an undo action')
+    pinfo = dict(info)
+    if 'isFormula' in pinfo:
+      pinfo['isFormula'] = bool(pinfo['isFormula'])
+    mods.append('(%s, %s, %s, %s)' % (cols_lit(before), S(cid), colpatch_lit(pinfo), exp))
+  return c2d, mods
+
+
+TRANSLATOR_DEFS = r'''
+Require Import Grist.Model.SchemaCode GristGen.SchemaSync_gen.
+Definition oo_eqb (a b : option (option str)) : bool :=
+  match a, b with Some x, Some y => ostr_eqb x y | None, None => true | _, _ => false end.
+Definition ob_eqb (a b : option bool) : bool :=
+  match a, b with Some x, Some y => Bool.eqb x y | None, None => true | _, _ => false end.
+Definition cdict_eqb (a b : cdict) : bool :=
+  ostr_eqb (d_type a) (d_type b) && ob_eqb (d_isf a) (d_isf b) && ostr_eqb (d_formula a) (d_formula b) &&
+  oo_eqb (d_rev a) (d_rev b) && ostr_eqb (d_id a) (d_id b).
+Definition c2d_check (c : scol * bool * bool * cdict) : bool :=
+  match c with (col, i, d, exp) => cdict_eqb (col_to_dict_gen col i d) exp end.
+Definition mod_check (c : scols * str * colpatch * option (scols * cdict)) : bool :=
+  match c with
+  | (cols, cid, p, exp) =>
+    match modify_column_gen cols cid p, exp with
+    | Some (a, u), Some (b, v) => scols_eqb a b && cdict_eqb u v
+    | None, None => true
+    | _, _ => false
+    end
+  end.
+Definition build_gen_check (c : meta * option schema) : bool :=
+  match build_schema_gen [] (m_tables (fst c)) (m_cols (fst c)), snd c with
+  | Ok s, Some s' => schema_eqb s s'
+  | Err _, None => true
+  | _, _ => false
+  end.
+'''
